@@ -470,6 +470,29 @@ def engine():
     return _engine
 
 
+# engine configurations that must not change the meaning of any program of the fragment: generous limits, the output
+# options spelled out, the two options together.  (A limit that is never reached, or a quota that is never exceeded, only
+# adds checks; `yaql.convertTuplesToLists` / `convertSetsToLists` = their defaults for lists.)
+NEUTRAL_OPTIONS = [
+    {},
+    {"yaql.limitIterators": 100000},
+    {"yaql.memoryQuota": 10 ** 9},
+    {"yaql.limitIterators": 50000, "yaql.memoryQuota": 10 ** 8},
+    {"yaql.convertTuplesToLists": True, "yaql.convertOutputData": True},
+    {"yaql.convertInputData": True, "yaql.limitIterators": -1, "yaql.memoryQuota": -1},
+]
+_variants = {}
+
+
+def engine_variant(i):
+    """engine number i of the neutral configurations (each created once per process)"""
+    i %= len(NEUTRAL_OPTIONS)
+    if i not in _variants:
+        import yaql
+        _variants[i] = engine() if i == 0 else yaql.YaqlFactory().create(dict(NEUTRAL_OPTIONS[i]))
+    return _variants[i]
+
+
 def make_context(log):
     """A fresh child of the standard context with the tick probe registered."""
     import yaql
